@@ -10,8 +10,8 @@ OPNAME = {"&&": "and", "||": "or", "==": "eq", "!=": "not", ">": "gt", ">=": "gt
           "+": "plus", "-": "minus", "/": "div", "*": "mul", "%": "mod"}
 
 DESCS = ["", "plain", "with \"quotes\"", "back\\slash", "tab\there", "line\nbreak", "é ü 中文 😀", "nbsp zwsp​", "'single'", "\x01\x7f",
-         "a\\\"b", "€ × ·"]
-STRS = ["", "a", "ab", "a b", 'q"t', "back\\slash", "é", "中文", "😀", "tab\t", "nl\n", " ", "​", "'", "\x01", "%d %s", "\\n", "a\\\"b"]
+         "a\\\"b", "€ × ·", "\u0080\u0081\u00ff\u0100", "\uffff\U00010000"]
+STRS = ["", "a", "ab", "a b", 'q"t', "back\\slash", "é", "中文", "😀", "tab\t", "nl\n", " ", "​", "'", "\x01", "%d %s", "\\n", "a\\\"b", "\u0080", "\u007f\u0080\u0081", "\u00ff\u0100", "\uffff", "\U00010000"]
 
 
 class J:
